@@ -51,6 +51,11 @@ def install(R):
         st.assume(z3.ForAll([k_], z3.Implies(z3.And(0 <= k_, k_ < T.slen(G)),
                                              z3.And(T.sget(G, k_) == elem, gid(G, k_) >= 1, z3.Select(st.ghost["FS_ex"].t, T.sget(G, k_)))),
                             patterns=[T.sget(G, k_)]))
+        # ... and every visible matching file (id >= 1) is listed
+        b2 = z3.Int(fresh_name("b"))
+        pth = pathf(eng, fr, mk_V(loc), mk_int(b2)).t
+        st.assume(z3.ForAll([b2], z3.Implies(z3.And(b2 >= 1, z3.Select(st.ghost["FS_ex"].t, pth)), T.sin(G, pth)), patterns=[T.sin(G, pth)]))
+        st.env["__globbed__"] = SV("V", G, meta={"seq": True})
         st.assumed.append("glob.glob over a crop directory: duplicate-free list of the visible matching files")
         return [Outcome("normal", st, val=SV("V", G, meta={"seq": True}))]
     R.externals["glob.glob"] = ext_glob
@@ -182,6 +187,103 @@ def install(R):
     c.notes = ""
     c.raises = {"XYZError": dict(ensures=["fs_unchanged()"]), "EOFError": dict(ensures=["fs_unchanged()"]), "AnyError": dict(ensures=["fs_unchanged()"])}
     c.ensures = [("ready", "result == CropReady(self.location)"), ("frame", "fs_unchanged() and self.location == old(self.location)")]
+    return R
+
+
+def install_check_bad(R):
+    """Crop.check_bad (C08): results that cannot be loaded or whose length differs from their batch are removed (when asked), every
+    other file is left as it was."""
+    S = R.spec
+    stripf = z3.Function("str_strip", V, V, V)
+    idtext = z3.Function("id_text", Int, V)            # str(i)
+    gid = z3.Function("glob_id", V, Int, Int)
+    probed = {}
+
+    def strmeth(eng, fr, recv, meth, args, node):
+        if meth != "strip" or recv.k != "V" or len(args) != 1 or not (args[0].k == "str" and z3.is_string_value(args[0].t)):
+            return None
+        t = recv.t
+        out = stripf(t, T.VStr(args[0].t))
+        if z3.is_app(t) and t.decl().name() == "str_strip" and z3.is_app(t.arg(1)) and t.arg(1).decl().name() == "VStr" and z3.is_string_value(t.arg(1).arg(0)):
+            a, b = t.arg(1).arg(0).as_string(), args[0].t.as_string()
+            # TEMPLATE.format(i).strip(a).strip(b) == str(i): checked on the real template constants for i = 1..5000 (assumed beyond)
+            mod = eng.repo.module("xyzpy/gen/cropping.py")
+            for const in ("RSLT_NM", "BTCH_NM"):
+                lit = getattr(mod.consts.get(const), "value", None)
+                if not isinstance(lit, str) or lit.count("{}") != 1 or (lit, a, b) in probed:
+                    continue
+                ok = all(lit.format(i).strip(a).strip(b) == str(i) for i in list(range(1, 5001)) + [10 ** 6 + 7, 123456789])
+                probed[(lit, a, b)] = ok
+                if ok:
+                    R.ensure_fmt_axioms(eng, lit)
+                    f = z3.Function(f"fmt:{lit}/1", V, V)
+                    i = z3.Int("i!")
+                    term = stripf(stripf(f(T.VInt(i)), T.VStr(z3.StringVal(a))), T.VStr(z3.StringVal(b)))
+                    eng.axioms.append((f"strip_inverts_template[{lit}|{a}|{b}]", z3.ForAll([i], z3.Implies(i >= 1, term == idtext(i)), patterns=[term])))
+            for const in ("RSLT_NM", "BTCH_NM"):
+                lit = getattr(mod.consts.get(const), "value", None)
+                if isinstance(lit, str) and lit.count("{}") == 1 and ("idtext", lit) not in probed:
+                    probed[("idtext", lit)] = True
+                    f = z3.Function(f"fmt:{lit}/1", V, V)
+                    i = z3.Int("i!")
+                    # '{}'.format(str(i)) == '{}'.format(i)
+                    eng.axioms.append((f"format_of_id_text[{lit}]", z3.ForAll([i], f(idtext(i)) == f(T.VInt(i)), patterns=[f(idtext(i))])))
+        return mk_V(out)
+    S["__strmeth__"] = strmeth
+
+    def bad_at(eng, fr, loc, G, k):
+        """result file number k of the listing was bad at entry: incomplete (cannot be unpickled) or of another length than its batch"""
+        g0 = (fr.old if fr.old is not None else fr.st).ghost
+        p = T.sget(G, k)
+        bp = S["BatchPath"](eng, fr, loc, mk_int(gid(G, k))).t
+        return z3.Or(z3.Not(z3.Select(g0["FS_ok"].t, p)), T.vlen(z3.Select(g0["FS_ct"].t, p)) != T.vlen(z3.Select(g0["FS_ct"].t, bp)))
+
+    def check_bad_progress(eng, fr, loc, G, i, delete_bad, part=None):
+        """file system after the first i listed results were examined"""
+        Gv = eng.seq_V(G, fr)
+        iv = eng.as_int(i, fr)
+        db = eng.truth(delete_bad, fr)
+        g0, g1 = fr.old.ghost, fr.st.ghost
+        same_at = R.symbols["same_at"]
+        k = z3.Int(fresh_name("k"))
+        q = z3.Const(fresh_name("q"), V)
+        p = T.sget(Gv, k)
+        listed = z3.ForAll([k], z3.Implies(z3.And(0 <= k, k < T.slen(Gv)),
+                                           z3.If(z3.And(k < iv, db, bad_at(eng, fr, loc, Gv, k)), z3.Not(z3.Select(g1["FS_ex"].t, p)), same_at(g0, g1, p))),
+                           patterns=[T.sget(Gv, k)])
+        others = z3.ForAll([q], z3.Implies(z3.Not(T.sin(Gv, q)), same_at(g0, g1, q)),
+                           patterns=[T.sin(Gv, q), z3.Select(g1["FS_ex"].t, q), z3.Select(g1["FS_ct"].t, q), z3.Select(g1["FS_ok"].t, q)])
+        return mk_bool(listed if part == "listed" else others if part == "others" else z3.And(listed, others))
+    S["CheckBadProgress"] = check_bad_progress
+    S["CheckBadListed"] = lambda eng, fr, loc, G, i, db: check_bad_progress(eng, fr, loc, G, i, db, part="listed")
+    S["CheckBadOthers"] = lambda eng, fr, loc, G, i, db: check_bad_progress(eng, fr, loc, G, i, db, part="others")
+
+    def check_bad_effect(eng, fr, loc, delete_bad):
+        """caller-side statement: a result file that existed is gone iff it was bad and deletion was asked for, else unchanged; nothing else changed"""
+        db = eng.truth(delete_bad, fr)
+        g0, g1 = fr.old.ghost, fr.st.ghost
+        same_at = R.symbols["same_at"]
+        b = z3.Int(fresh_name("b"))
+        p = S["ResultPath"](eng, fr, loc, mk_int(b)).t
+        bp = S["BatchPath"](eng, fr, loc, mk_int(b)).t
+        bad = z3.Or(z3.Not(z3.Select(g0["FS_ok"].t, p)), T.vlen(z3.Select(g0["FS_ct"].t, p)) != T.vlen(z3.Select(g0["FS_ct"].t, bp)))
+        res = z3.ForAll([b], z3.Implies(z3.And(b >= 1, z3.Select(g0["FS_ex"].t, p)),
+                                        z3.If(z3.And(db, bad), z3.Not(z3.Select(g1["FS_ex"].t, p)), same_at(g0, g1, p))), patterns=[p])
+        return mk_bool(res)
+    S["CheckBadEffect"] = check_bad_effect
+
+    R.add(K + "Crop.check_bad", cls="Crop", result="V", props=["C08", "C10"],
+          requires=[("batches_sown", "forall(lambda b: implies(b >= 1 and fs_exists(ResultPath(self.location, b)), fs_exists(BatchPath(self.location, b)) and "
+                                     "fs_complete(BatchPath(self.location, b))))")],
+          modifies=["ghost:FS"],
+          loops={"loop0": dict(idx="_i", modifies=["ghost:FS", "bad_ids", "result_num", "batch_file", "batch", "result", "unloadable", "err", "msg"], inv=[
+              ("examined_so_far", "CheckBadListed(self.location, result_files, _i, delete_bad)"),
+              ("other_files_untouched", "CheckBadOthers(self.location, result_files, _i, delete_bad)"),
+              ("ids", "is_seq(bad_ids)")])},
+          ensures=[("bad_results_removed_good_ones_kept", "CheckBadEffect(self.location, delete_bad)"),
+                   ("nothing_else_touched", "CheckBadProgress(self.location, result_files, slen(result_files), delete_bad)"),
+                   ("ids", "is_seq(result)")],
+          raises={"AnyError": dict(), "OSError": dict(), "FileNotFoundError": dict(), "EOFError": dict()})
     return R
 
 
